@@ -187,7 +187,16 @@ func wireAddr() map[wallet.BackendID]wire.Address {
 	for i := range a {
 		a[i] = rt.NondetU8()
 	}
-	return map[wallet.BackendID]wire.Address{channel.TestBackendID: &a}
+	return map[wallet.BackendID]wire.Address{wireKey: &a}
+}
+
+// wireKey is the backend id under which wire addresses are stored in this run:
+// wire address maps are not tied to registered backends, so ids other than 0
+// round-trip as well (drawn once per run by drawWireKey).
+var wireKey wallet.BackendID
+
+func drawWireKey() {
+	wireKey = []wallet.BackendID{0, 1, 6, 2147483647}[rt.Choice(rt.Bound("wireKeys", 4))]
 }
 
 func walletAddr() map[wallet.BackendID]wallet.Address {
@@ -273,6 +282,7 @@ func params() *channel.Params {
 
 // VerifC14Values: the value types (selected by Choice).
 func VerifC14Values() {
+	drawWireKey()
 	gen.Setup()
 	switch rt.Choice(8) {
 	case 0: // Balances
@@ -575,6 +585,7 @@ func message(k int) (wire.Msg, func(wire.Msg) bool) {
 
 // VerifC14Messages: every message type through wire.EncodeMsg / DecodeMsg.
 func VerifC14Messages() {
+	drawWireKey()
 	gen.Setup()
 	k := rt.Choice(NumMsgs)
 	x, same := message(k)
@@ -592,6 +603,7 @@ func VerifC14Messages() {
 // VerifC14Envelopes: two envelopes back to back through the envelope
 // serializer decode in order and consume exactly their bytes.
 func VerifC14Envelopes() {
+	drawWireKey()
 	gen.Setup()
 	ser := perunser.Serializer()
 	pick := func() int { return []int{int(wire.Ping), int(wire.ChannelUpdateAcc), int(wire.ChannelProposalRej), int(wire.ChannelUpdate)}[rt.Choice(rt.Bound("envKinds", 3))] }
@@ -622,6 +634,7 @@ var _ = simwallet.NewRandomAccount
 // serializer (From*/To* conversions and framing; proto.Marshal/Unmarshal are
 // outside the claim), and agreement with the native serializer's result.
 func VerifC14Protobuf() {
+	drawWireKey()
 	gen.Setup()
 	k := rt.Choice(NumMsgs)
 	x, same := message(k)
